@@ -53,8 +53,8 @@ var ip6Pool = []string{"fd00::1", "fd00::2"}
 
 func newGen(c *Ctx) *gen { return &gen{c: c, port: 5000} }
 
-func (g *gen) rnd(n int) int { return g.c.Rng.Intn(n) }
-func (g *gen) p(pct int) bool { return g.c.Rng.Intn(100) < pct }
+func (g *gen) rnd(n int) int   { return g.c.Rng.Intn(n) }
+func (g *gen) p(pct int) bool  { return g.c.Rng.Intn(100) < pct }
 func (g *gen) add(t ...string) { g.ops = append(g.ops, t) }
 
 func (g *gen) pickUfrag() string {
@@ -468,6 +468,16 @@ func (g *gen) flat(cfg []string) []string {
 	return out
 }
 
+// lisErr: in a quarter of the histories without real timers the listener reports an error from Close
+// (a wrapping listener, or one its owner closed before): TCPMuxDefault.Close must tear everything down all the same
+func (g *gen) lisErr(cfg []string) []string {
+	if cfg[4] == "0" && g.p(25) {
+		cfg[4] = "3"
+		g.c.Count("hist:listener-close-error")
+	}
+	return cfg
+}
+
 func replayTag(toks []string) string {
 	rt := "0"
 	if len(toks) >= 5 {
@@ -523,7 +533,7 @@ func (g *gen) history(i int) ([]string, string, bool) {
 		g.add("muxclose")
 		g.add("census")
 		g.c.Count("hist:rt-slowloris")
-		toks := g.flat(cfg)
+		toks := g.flat(g.lisErr(cfg))
 		return toks, replayTag(toks), false
 	case kind < 6: // real alive timer (no step of this script races with the timer)
 		cfg[4] = "2"
@@ -546,7 +556,7 @@ func (g *gen) history(i int) ([]string, string, bool) {
 		}
 		g.add("census")
 		g.c.Count("hist:rt-expiry")
-		toks := g.flat(cfg)
+		toks := g.flat(g.lisErr(cfg))
 		return toks, replayTag(toks), false
 	case kind < 14: // the two halves of a race window back to back
 		if g.p(30) {
@@ -587,7 +597,7 @@ func (g *gen) history(i int) ([]string, string, bool) {
 		g.add("crecv", "50")
 		g.add("stat", "50")
 		g.add("census")
-		toks := g.flat(cfg)
+		toks := g.flat(g.lisErr(cfg))
 		return toks, replayTag(toks), true
 	case kind < 18: // a client's first frame between the close of its ufrag's packet conn and that conn's cleanup
 		if g.p(30) {
@@ -620,7 +630,7 @@ func (g *gen) history(i int) ([]string, string, bool) {
 		}
 		g.add("census")
 		g.c.Count("hist:first-frame-in-close-window")
-		toks := g.flat(cfg)
+		toks := g.flat(g.lisErr(cfg))
 		return toks, replayTag(toks), true
 	case kind < 26: // several clients of one ufrag on one packet conn: per-peer order, replies per peer
 		if g.p(30) {
@@ -680,7 +690,7 @@ func (g *gen) history(i int) ([]string, string, bool) {
 		}
 		g.tail()
 		g.c.Count("hist:fan-in")
-		toks := g.flat(cfg)
+		toks := g.flat(g.lisErr(cfg))
 		return toks, replayTag(toks), g.removal || g.closeOpen
 	case kind < 33: // AddConn overlapping the end of its packet conn: handleConn parked between lookup and AddConn
 		if g.p(25) {
@@ -777,7 +787,7 @@ func (g *gen) history(i int) ([]string, string, bool) {
 			g.add("rd", "0")
 		}
 		g.c.Count("hist:race-attach-close")
-		toks := g.flat(cfg)
+		toks := g.flat(g.lisErr(cfg))
 		return toks, replayTag(toks), what <= 4
 	}
 	// general history
@@ -813,7 +823,7 @@ func (g *gen) history(i int) ([]string, string, bool) {
 	if cfg[3] == "0" {
 		g.c.Count("cfg:listener-addr-not-tcp")
 	}
-	toks := g.flat(cfg)
+	toks := g.flat(g.lisErr(cfg))
 	nt := g.attached && (g.rejected || g.removal || g.closeOpen)
 	return toks, replayTag(toks), nt
 }
